@@ -185,11 +185,14 @@ def run_sim(cfg, args, timeout=3600):
     binp = build(cfg)
     outdir = os.path.join(TARGET_ROOT, repo_tag(), "out")
     os.makedirs(outdir, exist_ok=True)
-    outp = os.path.join(outdir, "%s-%s-%d.json" % (cfg, args[0], os.getpid()))
+    outp = os.path.join(outdir, "%s-%s-%d-%s.json" % (cfg, args[0], os.getpid(), __import__("uuid").uuid4().hex[:10]))
     if os.path.exists(outp):
         os.unlink(outp)
     cmd = [binp] + [str(a) for a in args] + ["--out", outp]
+    t0 = time.time()
     p = subprocess.run(cmd, env=base_env(), stdout=subprocess.PIPE, stderr=subprocess.PIPE, text=True, timeout=timeout)
+    if time.time() - t0 > 5:
+        log("  %s %s took %.1fs" % (cfg, args[0], time.time() - t0))
     if p.returncode == 77 and "GLAMSIM-CRASH" in p.stderr:
         line = [l for l in p.stderr.splitlines() if "GLAMSIM-CRASH" in l][-1]
         raise CrashFound(cfg, last_case(p.stderr), line.strip())
@@ -285,7 +288,7 @@ def run_monitored(cfg, cmds_envs, what):
 
     def one(i_cmd_env):
         i, (cmd, env) = i_cmd_env
-        outp = os.path.join(outdir, "%s-%d-%d.json" % (cfg, os.getpid(), i))
+        outp = os.path.join(outdir, "%s-%d-%d-%s.json" % (cfg, os.getpid(), i, __import__("uuid").uuid4().hex[:10]))
         if os.path.exists(outp):
             os.unlink(outp)
         p = subprocess.run(cmd + ["--out", outp], env=env, cwd=SIM, stdout=subprocess.PIPE, stderr=subprocess.PIPE, text=True, timeout=4 * 3600)
@@ -301,11 +304,45 @@ def run_monitored(cfg, cmds_envs, what):
         os.unlink(outp)
         return j
 
+    t0 = time.time()
     with ThreadPoolExecutor(max_workers=NCPU) as ex:
         rs = list(ex.map(one, enumerate(cmds_envs)))
+    if time.time() - t0 > 5 and len(cmds_envs) > 1:
+        log("  %s: %d monitored process(es) took %.1fs" % (what + " " + cfg, len(cmds_envs), time.time() - t0))
     if len(rs) == 1 and "reproduced" in rs[0]:
         return rs[0]
     return merge_results(rs)
+
+
+def run_miri_pool(cfg, labelled):
+    """labelled: list of (label, args). All interpreter processes share one pool of NCPU workers. Returns
+    {label: merged result} and {label: CrashFound} for labels whose process was aborted by the monitor."""
+    from concurrent.futures import ThreadPoolExecutor
+    env = miri_env(cfg)
+    t0 = time.time()
+    p = subprocess.run(miri_cmd(cfg, ["info"]), env=env, cwd=SIM, stdout=subprocess.PIPE, stderr=subprocess.STDOUT, text=True)
+    if p.returncode != 0:
+        raise HarnessError("miri build failed for %s:\n%s" % (cfg, "\n".join(p.stdout.splitlines()[-40:])))
+    log("miri build %s in %.1fs" % (cfg, time.time() - t0))
+
+    def one(job):
+        label, args = job
+        try:
+            return label, run_monitored(cfg, [(miri_cmd(cfg, args), env)], "miri"), None
+        except CrashFound as e:
+            return label, None, e
+
+    t0 = time.time()
+    with ThreadPoolExecutor(max_workers=NCPU) as ex:
+        outs = list(ex.map(one, labelled))
+    log("  miri %s: %d interpreter processes took %.1fs" % (cfg, len(labelled), time.time() - t0))
+    results, crashes = {}, {}
+    for label, r, e in outs:
+        if e is not None:
+            crashes.setdefault(label, e)
+        else:
+            results.setdefault(label, []).append(r)
+    return {k: merge_results(v) for k, v in results.items()}, crashes
 
 
 def run_miri(cfg, args, groups=None):
@@ -750,7 +787,7 @@ def check_c18(tier, seed):
         results_p.append((c, run_sim(c, ["c18p", "--seed", seed, "--samples", samples if c != "sse2-dbg" else max(8, samples // 2), "--workers", NCPU])))
         results_i.append((c, run_sim(c, ["c18i", "--seed", seed, "--samples", 300 if tier == "quick" else 20000, "--workers", NCPU])))
         results_c.append((c, run_sim(c, ["conv", "--seed", seed, "--rounds", 200 if tier == "quick" else 20000])))
-        nchain = (2000000 if tier == "quick" else 60000000) // (8 if c == "sse2-dbg" else 1)
+        nchain = (1000000 if tier == "quick" else 60000000) // (8 if c == "sse2-dbg" else 1)
         results_ch.append((c, run_sim(c, ["c18chain", "--seed", seed, "--runs", nchain, "--workers", NCPU])))
     # math-backend variant: only the hostile sweep depends on it
     results_p.append(("libm", run_sim("libm", ["c18p", "--seed", seed, "--samples", samples, "--workers", NCPU])))
@@ -761,64 +798,42 @@ def check_c18(tier, seed):
     evals += collect(results_c, viols, fired, effective, probes)
     evals += collect(results_ch, viols, fired, effective, probes)
     monitors = {}
-    # machine-level monitors: Miri (quick: subset of lengths/offsets; thorough: full product, 3 backends), ASan (thorough)
+    # machine-level monitor 1: Miri. All interpreter processes of a backend share one pool.
+    #  memory   : the slice / index cases on exact-size heap buffers (quick: SIMD-backed types, subset of lengths)
+    #  every-op : every public function / operator / conversion of the op table executes under the interpreter (ordinary, mixed
+    #             special, all-zero and one structured argument set; quick: two of the four per op)
+    #  conv     : pointer-cast / union / aligned-temporary conversions of the SIMD matrix and vector types
+    #  histories: short format-free C17 histories of the SIMD-backed vector types (Deref overlays, AsRef/AsMut, to_array ...)
     miri_cfgs = ["miri"] if tier == "quick" else ["miri", "miri-scalar", "miri-coresimd"]
     for mc in miri_cfgs:
-        args = ["c18m", "--seed", seed, "--rounds", 1, "--mem", "heap"] + (["--subset"] if tier == "quick" else [])
-        try:
-            r = run_miri(mc, args, groups=SIMD_GROUPS if tier == "quick" else TYPE_GROUPS)
-        except CrashFound as e:
-            viols.append(crash_violation(e, seed, "Heap"))
-            monitors[mc] = {"cases": 0, "ub_reports": 1}
-            continue
-        monitors[mc] = {"cases": r["evaluations"], "violations": r["violations_total"], "ub_reports": 0}
-        evals += r["evaluations"]
-        for v in r["violations"]:
-            v = dict(v); v["config"] = mc; viols.append(v)
-    # the pointer-cast / intrinsic conversions (to_array, AsRef/AsMut, Deref fields, Into array/tuple/Vec3/Vec4, from_slice,
-    # write_to_slice) of the SIMD-backed types, as short C17 histories under Miri (text paths skipped: float formatting
-    # dominates Miri's run time and touches no glam unsafe code)
-    try:
-        r = run_miri("miri", ["conv", "--seed", seed, "--rounds", 3 if tier == "quick" else 40])
-        monitors["miri-matrix-conversions"] = {"calls": r["evaluations"], "ub_reports": 0, "violations": r["violations_total"]}
-        evals += r["evaluations"]
-        for v in r["violations"]:
-            v = dict(v); v["config"] = "miri"; viols.append(v)
-    except CrashFound as e:
-        monitors["miri-matrix-conversions"] = {"ub_reports": 1, "what": e.what}
-        viols.append({"class": "memory-fault:matrix-conversions", "config": "miri", "detail": e.what,
-                      "replay": {"property": "C18", "part": "conv", "seed": seed, "rounds": 3, "violation_class": "memory-fault:matrix-conversions",
-                                 "observed": e.what}})
-    # every public function / operator / conversion of the op table executes at least once (two calls: ordinary and mixed
-    # special arguments) under Miri: uninitialised, out-of-bounds or misaligned accesses are reported even when the
-    # result is right and nothing crashes natively
-    once_cfgs = ["miri"] if tier == "quick" else ["miri", "miri-scalar", "miri-coresimd"]
-    for mc in once_cfgs:
-        shards = 2 * NCPU
-        try:
-            r = run_miri(mc, [["c18p", "--once", "--seed", seed, "--shard", i, "--of", shards] for i in range(shards)])
-            monitors[mc + "-every-op-once"] = {"calls": r["evaluations"], "ops": r["distinct_nontrivial"] - shards, "ub_reports": 0,
-                                                "violations": r["violations_total"]}
+        jobs = []
+        mem_groups = SIMD_GROUPS if tier == "quick" else [[t] for g in TYPE_GROUPS for t in g]
+        for g in mem_groups:
+            jobs.append(("memory", ["c18m", "--seed", seed, "--rounds", 1, "--mem", "heap", "--types", ",".join(g)] + (["--subset"] if tier == "quick" else [])))
+        # each interpreter process pays ~20 s of start-up: one shard per core; the quick tier makes one call per op (which of
+        # the four argument sets rotates with the op index and the seed), the thorough tier all four
+        shards = NCPU if tier == "quick" else 2 * NCPU
+        for i in range(shards):
+            jobs.append(("every-op", ["c18p", "--once", "--seed", seed, "--shard", i, "--of", shards] + (["--calls", 1] if tier == "quick" else [])))
+        jobs.append(("conv", ["conv", "--seed", seed, "--rounds", 3 if tier == "quick" else 40]))
+        conv_types = ["Vec3A", "Vec4", "Quat", "BVec3A", "BVec4A"] + (["Vec3", "DVec4", "DQuat", "IVec3", "U8Vec4"] if tier == "thorough" else [])
+        hist_groups = [conv_types[:3], conv_types[3:]] if tier == "quick" else [[t] for t in conv_types]
+        for g in hist_groups:
+            jobs.append(("histories", ["c17", "--seed", seed, "--histories", 2 if tier == "quick" else 12, "--workers", 1, "--no-fmt", "--no-grid", "--types", ",".join(g)]))
+        res, crashes = run_miri_pool(mc, jobs)
+        for label, r in res.items():
+            monitors["%s-%s" % (mc, label)] = {"calls_or_cases": r["evaluations"], "violations": r["violations_total"], "ub_reports": 0}
             evals += r["evaluations"]
             for v in r["violations"]:
                 v = dict(v); v["config"] = mc; viols.append(v)
-        except CrashFound as e:
-            monitors[mc + "-every-op-once"] = {"ub_reports": 1, "what": e.what, "case": e.case}
-            viols.append(crash_violation(e, seed, "Heap"))
-    conv_types = ["Vec3A", "Vec4", "Quat", "BVec3A", "BVec4A"] + (["Vec3", "DVec4", "DQuat", "IVec3", "U8Vec4"] if tier == "thorough" else [])
-    try:
-        r = run_miri("miri", ["c17", "--seed", seed, "--histories", 2 if tier == "quick" else 12, "--workers", 1, "--no-fmt", "--no-grid"],
-                     groups=[[t] for t in conv_types])
-        monitors["miri-conversions"] = {"histories": r["evaluations"], "steps": r["extra"].get("steps_executed"), "ub_reports": 0,
-                                        "violations": r["violations_total"]}
-        evals += r["evaluations"]
-        for v in r["violations"]:
-            v = dict(v); v["config"] = "miri"; viols.append(v)
-    except CrashFound as e:
-        monitors["miri-conversions"] = {"ub_reports": 1, "what": e.what}
-        viols.append({"class": "memory-fault:conversions", "config": "miri", "detail": e.what,
-                      "replay": {"property": "C18", "part": "conv", "seed": seed, "violation_class": "memory-fault:conversions",
-                                 "observed": e.what, "rerun": "check.py C18"}})
+        for label, e in crashes.items():
+            monitors["%s-%s" % (mc, label)] = {"ub_reports": 1, "what": e.what, "case": e.case}
+            if e.case:
+                viols.append(crash_violation(e, seed, "Heap"))
+            else:
+                cls = "memory-fault:miri:%s" % label
+                viols.append({"class": cls, "config": mc, "detail": e.what,
+                              "replay": {"property": "C18", "part": "conv", "seed": seed, "rounds": 3, "violation_class": cls, "observed": e.what}})
     # AddressSanitizer (release build, as the property prescribes): the memory cases on exact-size heap buffers, and - because
     # a release-only code path can over-read a stack value without changing any result - every other workload as well: integer
     # operators, the hostile sweep, composed calls, conversions, access-path histories, padding-lane programs
